@@ -309,6 +309,11 @@ func (r *aRun) evaluate(out *Outcome) {
 	if out.Harness != "" {
 		return
 	}
+	if r.metricsErr != "" {
+		// (C19: the metrics must describe what happened; C07/C12: a record's bytes must not break or leak into them)
+		out.violate(prop, "metrics-gather-failed", "metrics-gather-failed", "the agent's metrics could not be gathered: %s", r.metricsErr)
+		return
+	}
 	v := r.buildView(out)
 	if v == nil {
 		return
@@ -1135,6 +1140,70 @@ func sumMetric(m map[string]float64, prefix string, mustContain ...string) float
 	return t
 }
 
+// keyLabelsOf extracts the key_* labels of a metric line in canonical (name-sorted) form
+func keyLabelsOf(metric string) string {
+	i, j := strings.IndexByte(metric, '{'), strings.LastIndexByte(metric, '}')
+	if i < 0 || j < i {
+		return ""
+	}
+	var keep []string
+	for _, kv := range splitLabels(metric[i+1 : j]) {
+		if strings.HasPrefix(kv, "key_") {
+			keep = append(keep, kv)
+		}
+	}
+	sort.Strings(keep)
+	return strings.Join(keep, ",")
+}
+
+// splitLabels splits name="value" pairs at the commas outside quotes
+func splitLabels(s string) []string {
+	var out []string
+	inQ, esc, start := false, false, 0
+	for i := 0; i < len(s); i++ {
+		switch {
+		case esc:
+			esc = false
+		case s[i] == '\\':
+			esc = true
+		case s[i] == '"':
+			inQ = !inQ
+		case s[i] == ',' && !inQ:
+			out = append(out, s[start:i])
+			start = i + 1
+		}
+	}
+	if start < len(s) {
+		out = append(out, s[start:])
+	}
+	return out
+}
+
+// metricLabelsOf gives the key_* labels the pipeline counters of a generated record must carry (orchestration keys + metric key)
+func (s *AScenario) metricLabelsOf(sr *aSentRec) string {
+	kt := s.KeyTuples[sr.rec.Key%len(s.KeyTuples)]
+	sev := 6
+	fmt.Sscanf(kt[1], "%d", &sev)
+	level := []string{"off", "fatal", "crit", "error", "warn", "notice", "info", "debug"}[sev%8]
+	vals := map[string]string{"app": kt[0], "level": level, "pid": kt[2], "host": []string{"h1", "h2"}[(sr.client+sr.seq)%2], "source": "-"}
+	if sr.rec.Drop {
+		vals["source"] = "dropme"
+	} else if sr.rec.MK > 0 {
+		vals["host"], vals["source"] = mkHostSource(sr.rec.MK)
+	}
+	mk := s.MetricKeys
+	if len(mk) == 0 {
+		mk = []string{"host"}
+	}
+	names := append(append([]string{}, mk...), s.Keys...)
+	var keep []string
+	for _, n := range names {
+		keep = append(keep, fmt.Sprintf("key_%s=%q", n, vals[n]))
+	}
+	sort.Strings(keep)
+	return strings.Join(keep, ",")
+}
+
 func (r *aRun) oracleC19(v *aView) {
 	out := r.out
 	// per generation: what the agent read in that generation
@@ -1164,6 +1233,42 @@ func (r *aRun) oracleC19(v *aView) {
 					}
 				}
 			}
+		}
+		// E5: per key set, the pipeline counters carry the key values of the records that caused them
+		wantByLabels := map[string]int{}
+		for _, cs := range r.clients {
+			for _, cr := range cs.conns {
+				if cr.gen != gen {
+					continue
+				}
+				for _, sr := range cr.recs {
+					if sr.end <= cr.agentRead && sr.rec.Raw == "" {
+						wantByLabels[r.s.metricLabelsOf(sr)]++
+					}
+				}
+			}
+		}
+		gotByLabels := map[string]float64{}
+		for k, val := range m {
+			if strings.HasPrefix(k, "sim_process_passed_records_total{") || strings.HasPrefix(k, "sim_process_dropped_records_total{") {
+				gotByLabels[keyLabelsOf(k)] += val
+			}
+		}
+		slack := framed + unfinished - wellFormed
+		for lb, want := range wantByLabels {
+			out.Obligations++
+			if got := int(gotByLabels[lb]); got < want || got > want+slack {
+				r.note("C19", "E5-label-attribution", "E5-label-attribution", "generation %d: pipeline passed+dropped under {%s} is %d, the agent read %d such records (and at most %d unattributable lines)", gen, lb, got, want, slack)
+			}
+		}
+		stray := 0
+		for lb, got := range gotByLabels {
+			if _, ok := wantByLabels[lb]; !ok {
+				stray += int(got)
+			}
+		}
+		if stray > slack {
+			r.note("C19", "E5-label-attribution", "E5-stray-labels", "generation %d: %d records are counted under key values no fully read record has (at most %d unattributable lines were read)", gen, stray, slack)
 		}
 		inPassed := sumMetric(m, "sim_input_passed_records_total")
 		inDropped := sumMetric(m, "sim_input_dropped_records_total")
